@@ -10,7 +10,7 @@ import (
 )
 
 func init() {
-	register(&Rule{Name: "LIMIT-SRC", Floor: 6,
+	register(&Rule{Name: "LIMIT-SRC", Floor: 4,
 		Doc: "every way request bytes enter memory in request-reachable transport code is bounded by the configured receive limit before use (bounded ReadFull, limit passed to ReadNext, accumulate-and-compare loops, bounded or checked decompression / whole-message reads)",
 		Run: ruleLimitSrc})
 	register(&Rule{Name: "LIMIT-STRICT", Floor: 3,
@@ -740,6 +740,12 @@ func ruleLimitImpl(r *Run) {
 				other = bo.X
 			}
 			if k, isConst := constInt(other); isConst {
+				// `for i := range limit` is lowered to a rotated loop: `0 < limit` at the entry is the bound test of
+				// the first iteration (the counter's initial value compared with the limit), not a convention test
+				if p.isPeeledLoopTest(ifi, other, limit) {
+					isLimitCmp[ifi] = true
+					return
+				}
 				// limit > 0 style convention test: under the assumption limit > 0 one edge is infeasible
 				if k == 0 {
 					op := bo.Op
@@ -804,6 +810,48 @@ func ruleLimitImpl(r *Run) {
 	if n == 0 {
 		r.missing("StreamCodec implementations")
 	}
+}
+
+// isPeeledLoopTest: ifi compares the constant initial value of a loop counter with `bound` before the first
+// iteration of a rotated loop whose latch compares counter+1 with the same bound (go/ssa's lowering of
+// range-over-int and of `for i := K; i < bound; i++` after rotation).
+func (p *Program) isPeeledLoopTest(ifi *ssa.If, init ssa.Value, bound ssa.Value) bool {
+	k0, ok := constInt(init)
+	if !ok {
+		return false
+	}
+	for _, sb := range ifi.Block().Succs {
+		for _, in := range sb.Instrs {
+			ph, ok := in.(*ssa.Phi)
+			if !ok {
+				break
+			}
+			fromHere, latch := false, false
+			for i, e := range ph.Edges {
+				if sb.Preds[i] == ifi.Block() {
+					if k, ok := constInt(e); ok && k == k0 {
+						fromHere = true
+					}
+					continue
+				}
+				bo, ok := e.(*ssa.BinOp)
+				if !ok || bo.Op != token.ADD || bo.X != ssa.Value(ph) {
+					continue
+				}
+				if refs := bo.Referrers(); refs != nil {
+					for _, ref := range *refs {
+						if cmp, ok := ref.(*ssa.BinOp); ok && (p.stripConvAll(cmp.X) == bound || p.stripConvAll(cmp.Y) == bound) {
+							latch = true
+						}
+					}
+				}
+			}
+			if fromHere && latch {
+				return true
+			}
+		}
+	}
+	return false
 }
 
 func ruleLimitDefaults(r *Run) {
